@@ -12,8 +12,9 @@ pub mod c15;
 pub mod c16;
 pub mod c17;
 pub mod c18;
+pub mod c19;
 
-pub const ALL: &[&str] = &["C01", "C02", "C06", "C09", "C10", "C12", "C13", "C14", "C15", "C16", "C17", "C18"];
+pub const ALL: &[&str] = &["C01", "C02", "C06", "C09", "C10", "C12", "C13", "C14", "C15", "C16", "C17", "C18", "C19"];
 
 pub fn run(ctx: &Ctx) -> bool {
     match ctx.prop.as_str() {
@@ -29,6 +30,7 @@ pub fn run(ctx: &Ctx) -> bool {
         "C16" => c16::run(ctx),
         "C17" => c17::run(ctx),
         "C18" => c18::run(ctx),
+        "C19" => c19::run(ctx),
         _ => return false,
     }
     true
@@ -48,6 +50,7 @@ pub fn checks(id: &str) -> Vec<Box<dyn DynCheck>> {
         "C16" => c16::checks(),
         "C17" => c17::checks(),
         "C18" => c18::checks(),
+        "C19" => c19::checks(),
         _ => vec![],
     }
 }
